@@ -885,6 +885,11 @@ def step0 (d : DS) (line : String) : DS × Option String :=
       let (ax, t) := t.sv; let (baum, t) := t.nat; let (ts, t) := t.rat; let (uid, _) := t.nat
       let cs' := d.cset.addLoop idP idS XP XS ax (baum ≠ 0) (1 / ts) uid
       let (d, s) := out { d with cset := cs' } cmd s!"ok {cs'.size - 1}"; (d, some s)
+    | "cs_bg" =>
+      -- enableBaumgarteStabilization(group) with setBaumgarteTimeConstant(tstab): both parameters = 1/tstab
+      let (k, t) := t.nat; let (ts, _) := t.rat
+      let cs' := (zipIdx d.cset.cs).map (fun p => if p.2 = k then { p.1 with baumgarte := true, bgA := 1 / ts, bgB := 1 / ts } else p.1)
+      ({ d with cset := { d.cset with cs := cs' }, lastFDC := [] }, none)
     | "cs_bind" | "cs_solver" => (d, none)
     | "cs_actuation" =>
       let (n, t) := t.nat; let (l, _) := t.rats n
